@@ -143,6 +143,65 @@ def run : Sw → List Op → Option (Sw × List Obs)
       | none => none
       | some r2 => some (r2.1, r1.2 ++ r2.2)
 
+/-! ## The Switch device's own events (`mpf/devices/switch.py`)
+
+At start-up the device registers one untimed handler per state with the controller: `_post_events(state)` when
+`ignore_window_ms` is 0, `_post_events_with_recycle(state)` otherwise (events with `|ms` are ordinary timed handlers of the
+controller model above).  So the controller calls it exactly once per real change (`untimed_once_per_change`); `Dev` is
+what the device does with those calls.  `post st` = all configured events for state `st` are posted
+(`<name>_active/_inactive`, tag events, `events_when_activated/deactivated`). -/
+
+structure Dev where
+  /-- `ignore_window_ms` in ticks; 0 = no window -/
+  window : Nat := 0
+  state : Bool := false
+  /-- `recycle_clear_time` -/
+  clear : Option Nat := none
+  /-- the state bound to the pending `_recycle_passed` call -/
+  opened : Bool := false
+  /-- ghost: the state of the last post (initially the start-up state) -/
+  posted : Bool := false
+  now : Nat := 0
+deriving Repr, DecidableEq
+
+inductive DOp
+  | change (st : Bool)   -- the controller reports a real change into `st` to the device's handler
+  | to (t : Nat)
+  | pass                 -- the loop runs `_recycle_passed`
+deriving Repr, DecidableEq
+
+inductive DObs
+  | post (st : Bool)
+deriving Repr, DecidableEq
+
+def dstep (d : Dev) : DOp → Option (Dev × List DObs)
+  | .change st =>
+    if st = d.state then none
+    else if d.window = 0 then some ({ d with state := st, posted := st }, [.post st])     -- `_post_events`
+    else match d.clear with                                                           -- `_post_events_with_recycle`
+      | some _ => some ({ d with state := st }, [])
+      | none => some ({ d with state := st, clear := some (d.now + d.window), opened := st, posted := st }, [.post st])
+  | .to t => if d.now ≤ t ∧ t ≤ d.clear.getD t then some ({ d with now := t }, []) else none
+  | .pass =>
+    match d.clear with
+    | none => none
+    | some c =>
+      if c ≤ d.now then
+        -- `_recycle_passed(state)`: window closed; post only if the switch toggled
+        if d.state = d.opened then some ({ d with clear := none }, [])
+        else some ({ d with clear := none, posted := d.state }, [.post d.state])
+      else none
+
+def drun : Dev → List DOp → Option (Dev × List DObs)
+  | d, [] => some (d, [])
+  | d, op :: ops =>
+    match dstep d op with
+    | none => none
+    | some r1 =>
+      match drun r1.1 ops with
+      | none => none
+      | some r2 => some (r2.1, r1.2 ++ r2.2)
+
 /-! ## line protocol: `new`, `sw <invert> <initial state> <initial hw_state>` (adds a switch), `<i> report l|r 0|1`,
 `<i> add st ms cb`, `<i> rm st ms cb`, `<i> wake`, `<i> q st ms`, `to t` (all switches), `<i> pending` -/
 
@@ -175,33 +234,68 @@ def toAll (t : Nat) : List Sw → Option (List Sw)
     let y ← toAll t r
     some (x.1 :: y)
 
+def toAllD (t : Nat) : List Dev → Option (List Dev)
+  | [] => some []
+  | d :: r => do
+    let x ← dstep d (.to t)
+    let y ← toAllD t r
+    some (x.1 :: y)
+
 def showPending (s : Sw) : String :=
   "T " ++ " ".intercalate (s.timed.map (fun kv => s!"{kv.1}:" ++ ",".intercalate (kv.2.map (fun e => s!"{e.cb}/{showB e.st}/{e.ms}"))))
     ++ " W " ++ (match s.wake with | none => "-" | some w => toString w)
     ++ " S " ++ showB s.state ++ showB s.hw
 
-def driverStep (d : List Sw) (line : String) : List Sw × String :=
+structure Drv where
+  sws : List Sw := []
+  devs : List Dev := []
+
+def showD (os : List DObs) : String :=
+  if os.isEmpty then "ok" else " ".intercalate (os.map (fun o => match o with | .post st => s!"post {showB st}"))
+
+/-- extra lines for the device model: `dev <window> <state>` (adds a device), `d <i> change 0|1`, `d <i> pass` -/
+def driverStep (d : Drv) (line : String) : Drv × String :=
   match (line.splitOn " ").filter (fun x => x != "") with
-  | ["new"] => ([], "ok")
+  | ["new"] => ({}, "ok")
   | ["sw", inv, st, hw] =>
     match b01 inv, b01 st, b01 hw with
-    | some i, some v, some h => (d ++ [{ invert := i, state := v, hw := h }], "ok")
+    | some i, some v, some h => ({ d with sws := d.sws ++ [{ invert := i, state := v, hw := h }] }, "ok")
     | _, _, _ => (d, "bad-op")
+  | ["dev", w, st] =>
+    match w.toNat?, b01 st with
+    | some w, some v => ({ d with devs := d.devs ++ [{ window := w, state := v, posted := v }] }, "ok")
+    | _, _ => (d, "bad-op")
   | ["to", t] =>
     match t.toNat? with
-    | some t => match toAll t d with
-      | some d' => (d', "ok")
-      | none => (d, "not-enabled")
+    | some t => match toAll t d.sws, toAllD t d.devs with
+      | some s', some d' => ({ sws := s', devs := d' }, "ok")
+      | _, _ => (d, "not-enabled")
+    | none => (d, "bad-op")
+  | "d" :: i :: rest =>
+    match i.toNat? with
+    | some i =>
+      match d.devs[i]? with
+      | some dv =>
+        let op : Option DOp := match rest with
+          | ["change", st] => (b01 st).map .change
+          | ["pass"] => some .pass
+          | _ => none
+        match op with
+        | some op => match dstep dv op with
+          | some r => ({ d with devs := d.devs.set i r.1 }, showD r.2)
+          | none => (d, "not-enabled")
+        | none => (d, "bad-op")
+      | none => (d, "bad-op")
     | none => (d, "bad-op")
   | i :: rest =>
     match i.toNat? with
     | some i =>
-      match d[i]? with
+      match d.sws[i]? with
       | some s =>
         if rest == ["pending"] then (d, showPending s) else
         match parseOp rest with
         | some op => match step s op with
-          | some r => (setAt d i r.1, showAll r.2)
+          | some r => ({ d with sws := setAt d.sws i r.1 }, showAll r.2)
           | none => (d, "not-enabled")
         | none => (d, "bad-op")
       | none => (d, "bad-op")
